@@ -264,10 +264,40 @@ def reader_before_flag(ctx, s, parser, var, table):
             good += s.ok_edges_of_call(fn, rb)
         # restrict to reader calls inside this arm: dominated by the same starts_with edge
         ok = bool(good) and any(an.cfg.dominates(g, b) for g in good)
+        verdict = PROVED if ok else VIOLATION
+        if not ok and good:
+            # an arm that reaches the flag both through the reader and past it (a shortcut for a literal value written
+            # directly): a violation only if the path past the reader writes nothing into the output
+            R = s.reach(fn, [an.cfg.entry], avoid=good)
+            if b not in R:
+                verdict = PROVED
+            else:
+                outp = None
+                for pi in range(1, fn.argc + 1):
+                    if fn.local_name(pi) == "output":
+                        outp = ("param", pi)
+                arm = None
+                for d in an.cfg.dominators(b):
+                    if d >= an.cfg.nblocks and any(f[0] == "true" and isinstance(f[1], tuple) and f[1][0] == "call" and
+                                                    const_bytes(an, f[1]) and const_bytes(an, f[1])[0] == nm
+                                                    for f in s.edge_new_facts(fn, d)):
+                        arm = d
+                writes = False
+                for wb, winfo in an.calls():
+                    if wb not in R or arm is None or not an.cfg.dominates(arm, wb):
+                        continue
+                    last = (winfo["base"] or winfo["callee"] or "").rsplit("::", 1)[-1]
+                    if last in ("copy_from_slice", "clone_from_slice", "put", "fill") and outp is not None and \
+                            contains_value(winfo["args"][0], lambda y: y == outp):
+                        writes = True
+                if writes:
+                    verdict = UNDECIDED
         sp = fn.blocks[b]["stmts"][i]["sp"] if i is not None else fn.blocks[b]["term"]["sp"]
-        s.add("S-DOM", fn, "reader-before-flag", nm.decode().rstrip('"'), sp, PROVED if ok else VIOLATION,
-              "the member counts as seen only after %s succeeded" % "/".join(r.split("::")[-1] for r in readers) if ok else
-              "the %s flag can be set without its value having been read" % nm.decode().rstrip('"'), b)
+        s.add("S-DOM", fn, "reader-before-flag", nm.decode().rstrip('"'), sp, verdict,
+              "the member counts as seen only after %s succeeded" % "/".join(r.split("::")[-1] for r in readers) if verdict == PROVED else
+              ("the %s flag can be set without its value having been read" % nm.decode().rstrip('"') if verdict == VIOLATION else
+               "the %s flag is also set on a path that writes the value directly instead of calling its reader: not decided"
+               % nm.decode().rstrip('"')), b)
 
 
 def first_action_is_quote(ctx, s, h):
